@@ -112,6 +112,9 @@ func (fc *fnCtx) queryPrefix() string {
 	for _, b := range ths {
 		for _, u := range b.uses {
 			t := fc.e.typeByName[u]
+			if t == nil && u == "struct{}" {
+				t = types.NewStruct(nil, nil)
+			}
 			if t == nil {
 				panic(unsupported{"theory " + b.name + " uses unknown type " + u})
 			}
